@@ -1,6 +1,7 @@
 import Mathlib.Tactic.Ring
 import Mathlib.Tactic.Linarith
 import PyPhysim.Proofs.GrayGenerated
+import PyPhysim.Proofs.C15Geom
 
 /-!
 # C15 — Gray conversion is a bijection; constellations are Gray labelled
@@ -131,6 +132,40 @@ theorem psk_gray (m : Nat) (hm : 1 ≤ m) (hm64 : m ≤ 64) (l₁ l₂ : Nat)
       rw [this, Nat.mod_self] at h
       subst h; rw [hsymm, hp]; exact wrapfact
 
+/-- PSK at construction, full geometric statement over ℝ: for every `M = 2^m`
+    (`1 ≤ m ≤ 64`) and every phase offset, any two distinct labels whose emitted points
+    are at (at most) the minimum distance `2·sin(π/M)` differ in exactly one bit.
+    (`psk_arg_is_dmin` in C16 shows `2·sin(π/M)` *is* the minimum over all pairs.) -/
+theorem psk_min_distance_one_bit (m : Nat) (hm : 1 ≤ m) (hm64 : m ≤ 64) (φ : ℝ) (l₁ l₂ : Nat)
+    (h₁ : l₁ < 2^m) (h₂ : l₂ < 2^m) (hne : l₁ ≠ l₂)
+    (hd : PyPhysim.C01.dist2
+        (PyPhysim.C01.pskNaturalPoint (2^m) (pskPosInit gray2binary l₁) φ)
+        (PyPhysim.C01.pskNaturalPoint (α := ℝ) (2^m) (pskPosInit gray2binary l₂) φ)
+      ≤ (2 * Real.sin (Real.pi / ((2^m : Nat) : ℝ))) ^ 2) :
+    hamming l₁ l₂ = 1 := by
+  have hM : (2:Nat)^m ≤ 2^64 := Nat.pow_le_pow_right (by norm_num) hm64
+  apply psk_gray m hm hm64 l₁ l₂ h₁ h₂
+  apply psk_min_pairs_adjacent (2^m) _ _ (gray_range l₁ m h₁).2 (gray_range l₂ m h₂).2 _ φ hd
+  intro heq
+  apply hne
+  have e₁ := (gray_roundtrip l₁ (by omega)).2
+  have e₂ := (gray_roundtrip l₂ (by omega)).2
+  have heq' : gray2binary l₁ = gray2binary l₂ := heq
+  rw [heq'] at e₁
+  exact e₁.symm.trans e₂
+
+/-- Square QAM, orders 4 and 16, geometric form on the integer grid of the C01 model: two
+    distinct labels whose grid cells are one step apart (squared distance 4 = minimum) differ
+    in one bit (whole table, kernel evaluation). -/
+theorem qam_min_distance_one_bit_small :
+    (∀ l₁ < 4, ∀ l₂ < 4, l₁ ≠ l₂ →
+      PyPhysim.C01.dist2 (PyPhysim.C01.qamGridPoint 2 (qamPos binary2gray 1 2 l₁))
+        (PyPhysim.C01.qamGridPoint 2 (qamPos binary2gray 1 2 l₂)) = 4 → hamming l₁ l₂ = 1) ∧
+    (∀ l₁ < 16, ∀ l₂ < 16, l₁ ≠ l₂ →
+      PyPhysim.C01.dist2 (PyPhysim.C01.qamGridPoint 4 (qamPos binary2gray 2 4 l₁))
+        (PyPhysim.C01.qamGridPoint 4 (qamPos binary2gray 2 4 l₂)) = 4 → hamming l₁ l₂ = 1) := by
+  constructor <;> decide +kernel
+
 /-- Square QAM as the code builds it, orders 4 and 16 (whole table, by kernel
     evaluation): grid neighbours differ in one bit. -/
 theorem qam_gray_small :
@@ -145,7 +180,9 @@ theorem qam_gray_small :
     label `gray2binary c`) puts labels 2 and 7 on neighbouring columns although
     they differ in two bits. -/
 theorem qam64_not_gray :
-    gridAdjacent 8 (qamPos binary2gray 3 8 2) (qamPos binary2gray 3 8 7) = true ∧ hamming 2 7 = 2 := by
+    gridAdjacent 8 (qamPos binary2gray 3 8 2) (qamPos binary2gray 3 8 7) = true ∧
+    PyPhysim.C01.dist2 (PyPhysim.C01.qamGridPoint 8 (qamPos binary2gray 3 8 2))
+        (PyPhysim.C01.qamGridPoint 8 (qamPos binary2gray 3 8 7)) = 4 ∧ hamming 2 7 = 2 := by
   decide +kernel
 
 /-- NEGATIVE WITNESS (known finding `C15:PSK.setPhaseOffset:natural-order`):
